@@ -345,6 +345,77 @@ impl<'a> Suite<'a> {
 		self.rep.exhaustive.push("certificates issued from a parsed request: every subject algorithm x every issuer of the pool x 6 settings of the parsed parameters (quick: a rotating third)".into());
 	}
 
+	/// material that came in through a parser and goes out again in an artefact: public keys read
+	/// from SubjectPublicKeyInfo encodings a BER-tolerant reader accepts, and CA certificates whose
+	/// names sweep every string tag and content.  Whatever is accepted has to be written as DER.
+	#[cfg(not(feature = "nocrypto"))]
+	pub fn imported_material_sweep(&mut self) {
+		use std::panic::{catch_unwind, AssertUnwindSafe};
+		let tlv = |tag: u8, c: &[u8]| { let mut v = vec![tag]; v.extend(der_len(c.len())); v.extend_from_slice(c); v };
+		let long = |tag: u8, c: &[u8]| { let mut v = vec![tag, 0x81, c.len() as u8]; v.extend_from_slice(c); v };
+		let long2 = |tag: u8, c: &[u8]| { let mut v = vec![tag, 0x82, 0, c.len() as u8]; v.extend_from_slice(c); v };
+		let key = self.ctx.key("ed25519");
+		let pk = key.public_key_raw().to_vec();
+		let alg = vec![0x30, 0x05, 0x06, 0x03, 0x2b, 0x65, 0x70];
+		let bits = |unused: u8| { let mut c = vec![unused]; c.extend(&pk); c };
+		let ec = self.ctx.key("ecdsaP256");
+		let ec_spki = ec.public_key_der();
+		let mut variants: Vec<(String, Vec<u8>)> = vec![
+			("plain".into(), tlv(0x30, &[alg.clone(), tlv(0x03, &bits(0))].concat())),
+			("sequence-long-form".into(), long(0x30, &[alg.clone(), tlv(0x03, &bits(0))].concat())),
+			("sequence-two-octet-length".into(), long2(0x30, &[alg.clone(), tlv(0x03, &bits(0))].concat())),
+			("bit-string-long-form".into(), tlv(0x30, &[alg.clone(), long(0x03, &bits(0))].concat())),
+			("algorithm-long-form".into(), tlv(0x30, &[long(0x30, &[0x06, 0x03, 0x2b, 0x65, 0x70]), tlv(0x03, &bits(0))].concat())),
+			("oid-long-form".into(), tlv(0x30, &[tlv(0x30, &long(0x06, &[0x2b, 0x65, 0x70])), tlv(0x03, &bits(0))].concat())),
+			("constructed-bit-string".into(), tlv(0x30, &[alg.clone(), tlv(0x23, &tlv(0x03, &bits(0)))].concat())),
+			("indefinite-length".into(), [vec![0x30, 0x80], alg.clone(), tlv(0x03, &bits(0)), vec![0, 0]].concat()),
+			("trailing-octet".into(), [tlv(0x30, &[alg.clone(), tlv(0x03, &bits(0))].concat()), vec![0]].concat()),
+			("p256-plain".into(), ec_spki.clone()),
+		];
+		if ec_spki.len() > 4 && ec_spki[1] < 0x80 {
+			variants.push(("p256-sequence-long-form".into(), long(0x30, &ec_spki[2..])));
+		}
+		let mut p = PCert::default_like();
+		p.serial = Some(vec![0x2a]);
+		p.ca = Ca::Ca(None);
+		for (name, enc) in variants {
+			let r = catch_unwind(AssertUnwindSafe(|| SubjectPublicKeyInfo::from_der(&enc)));
+			self.rep.case(&format!("spki-import {} {}", name, hex(&enc)), true);
+			let spki = match r {
+				Ok(Ok(k)) => k,
+				Ok(Err(_)) => { self.rep.count("spki_import_refused"); continue },
+				Err(_) => { self.rep.violate("C10:panic:spki-from-der", "SubjectPublicKeyInfo::from_der panics", hex(&enc)); continue },
+			};
+			self.rep.count("spki_import_accepted");
+			let iss = &self.issuers[0];
+			let Ok(Ok(cert)) = catch_unwind(AssertUnwindSafe(|| p.real().unwrap().signed_by(&spki, &iss.cert, &iss.key))) else { continue };
+			let line = format!("spec-cert {} {} {} {}", p.sexp(), key_sexp(&spki), issuer_sexp(&iss.p, &*iss.key), hex(cert.der()));
+			let resp = self.drv.ask(&line);
+			for clause in Self::parse_fail(&resp) {
+				if self.mine(&clause) {
+					self.rep.violate(&format!("{}:imported-public-key", clause), "a certificate issued to a public key imported from a SubjectPublicKeyInfo violates a specification clause", format!("the SubjectPublicKeyInfo given to from_der ({}): {}\nspec-request: {}\nspec-answer: {}", name, hex(&enc), line, resp));
+				}
+			}
+		}
+		// CA certificates whose subject sweeps every string tag x contents: what imports is issued again
+		for (shape, der, pkcs8) in crate::props::import::handmade_cas() {
+			let Ok(Ok(ip)) = catch_unwind(AssertUnwindSafe(|| CertificateParams::from_ca_cert_der(&der.clone().into()))) else { continue };
+			let Ok(k) = KeyPair::try_from(pkcs8.as_slice()) else { continue };
+			self.rep.case(&format!("reissue imported name {}", shape), true);
+			self.rep.count("imported_names_reissued");
+			let Ok(Ok(cert)) = catch_unwind(AssertUnwindSafe(|| ip.clone().self_signed(&k))) else { continue };
+			let pp = PCert::of_real(&ip);
+			let line = format!("spec-cert {} {} self {}", pp.sexp(), key_sexp(&k), hex(cert.der()));
+			let resp = self.drv.ask(&line);
+			for clause in Self::parse_fail(&resp) {
+				if self.mine(&clause) {
+					self.rep.violate(&format!("{}:imported-name", clause), "a certificate issued from an imported CA's parameters violates a specification clause", format!("imported certificate (subject shape {}): {}\nspec-request: {}\nspec-answer: {}", shape, hex(&der), line, resp));
+				}
+			}
+		}
+		self.rep.exhaustive.push("public keys imported from 11 SubjectPublicKeyInfo encodings (long-form and two-octet lengths at each level, constructed BIT STRING, indefinite length, trailing octet) and issued to; hand-built CA certificates over every string tag x contents imported and issued again".into());
+	}
+
 	pub fn csr(&mut self, p: &PCert, attrs: &[PAttr], alg: &str) -> CaseOut {
 		let out = run_csr_case(self.ctx, &mut self.drv, p, attrs, alg);
 		self.rep.case(&out.line, *p != PCert::empty() || !attrs.is_empty());
@@ -1443,6 +1514,8 @@ pub fn run(ctx: &mut Ctx, prop: &str) -> Report {
 			s.crl_enum_sweep();
 			s.string_kind_sweep();
 			s.time_edge_sweep();
+			#[cfg(not(feature = "nocrypto"))]
+			s.imported_material_sweep();
 			s.random_certs(n(300, 15000));
 			s.random_csrs(n(200, 8000));
 			s.random_crls(n(200, 8000));
